@@ -11,7 +11,7 @@ import tempfile
 import time
 import traceback
 
-from . import coqlit, coqrun
+from . import anchors, coqlit, coqrun
 
 VERIF = coqrun.VERIF
 EVIDENCE = os.path.join(VERIF, "evidence")
@@ -242,6 +242,8 @@ def run_check(prop, tier, seed):
         cases += list(prop.generate(rng, tier))
 
         # ---- implementation runs + oracle ----------------------------------------------
+        tracker = anchors.Tracker(prop.id, os.environ.get("N0V_REPO", "/repo"))
+        tracker.start()
         tags, kinds = {}, {}
         distinct = set()
         observations = []
@@ -267,6 +269,7 @@ def run_check(prop, tier, seed):
                 else:
                     failures.append({"kind": "oracle", "detail": fail, "case": case, "obs": obs})
 
+        tracker.stop()
         # ---- correspondence ------------------------------------------------------------
         corr_total = corr_unmodelled = 0
         corr_bad = []
@@ -394,6 +397,7 @@ def run_check(prop, tier, seed):
                 "correspondence_disagreements": len(corr_bad),
                 "selftest_reported": selftest_ok,
                 "coqchk": chk_summary,
+                "anchored_code_coverage": tracker.report(),
                 "evaluations": len(cases) + searched,
                 "distinct_nontrivial": len(distinct),
                 "rule": prop.rule,
